@@ -138,6 +138,9 @@ impl From<OutputEvent> for InputEvent {
 #[derive(Debug, Default, Clone, PartialEq)]
 pub struct InputList {
     pub events: Vec<InputEvent>,
+    /// The events as written, where `events` has the references to entities declared
+    /// in the document's DOCTYPE replaced (a document passed through as it is keeps them).
+    as_written: Option<Vec<InputEvent>>,
 }
 
 impl From<&[InputEvent]> for InputList {
@@ -154,6 +157,7 @@ impl From<&[InputEvent]> for InputList {
                     evaluated: v.evaluated,
                 })
                 .collect(),
+            as_written: None,
         }
     }
 }
@@ -232,9 +236,128 @@ fn find_doctype(data: &[u8]) -> Option<(usize, usize)> {
     None
 }
 
+/// The general entities declared with a literal value in this DOCTYPE: name and
+/// replacement text. (The first declaration of a name is the one which binds.)
+fn internal_entities(doctype: &[u8]) -> Vec<(Vec<u8>, Vec<u8>)> {
+    let mut entities: Vec<(Vec<u8>, Vec<u8>)> = Vec::new();
+    let mut pos = 0;
+    while pos < doctype.len() {
+        let rest = &doctype[pos..];
+        if rest.starts_with(b"<!--") {
+            match rest.windows(3).position(|w| w == b"-->") {
+                Some(end) => pos += end + 3,
+                None => break,
+            }
+        } else if rest.starts_with(b"<!ENTITY") {
+            let mut fields = rest["<!ENTITY".len()..]
+                .split(|c| c.is_ascii_whitespace())
+                .filter(|f| !f.is_empty());
+            let name = fields.next().unwrap_or_default();
+            let after_name = rest["<!ENTITY".len()..]
+                .windows(name.len().max(1))
+                .position(|w| w == name)
+                .map(|p| pos + "<!ENTITY".len() + p + name.len())
+                .unwrap_or(doctype.len());
+            let value_at = (after_name..doctype.len())
+                .find(|p| !doctype[*p].is_ascii_whitespace())
+                .unwrap_or(doctype.len());
+            match doctype.get(value_at) {
+                Some(quote @ (b'"' | b'\'')) if name != b"%" => {
+                    let value = &doctype[value_at + 1..];
+                    let len = value.iter().position(|c| c == quote).unwrap_or(value.len());
+                    if !entities.iter().any(|(known, _)| known == name) {
+                        entities.push((name.to_vec(), value[..len].to_vec()));
+                    }
+                    pos = value_at + 1 + len + 1;
+                }
+                // (a parameter entity, or one which is held elsewhere)
+                _ => pos = value_at.max(pos + 1),
+            }
+        } else if let quote @ (b'"' | b'\'') = rest[0] {
+            pos += 1 + rest[1..]
+                .iter()
+                .position(|c| *c == quote)
+                .unwrap_or(rest.len());
+            pos += 1;
+        } else {
+            pos += 1;
+        }
+    }
+    entities
+}
+
+/// `data` with the references to `entities` replaced (`None` if it holds none of them).
+/// References in comments, processing instructions and CDATA sections are text.
+fn expand_entities(data: &[u8], entities: &[(Vec<u8>, Vec<u8>)]) -> Result<Option<Vec<u8>>> {
+    fn expand(
+        data: &[u8],
+        entities: &[(Vec<u8>, Vec<u8>)],
+        depth: usize,
+        limit: usize,
+        out: &mut Vec<u8>,
+    ) -> Result<bool> {
+        let mut replaced = false;
+        let mut pos = 0;
+        while pos < data.len() {
+            let rest = &data[pos..];
+            let skip_to = |open: &[u8], close: &[u8]| {
+                rest.starts_with(open).then(|| {
+                    rest.windows(close.len())
+                        .position(|w| w == close)
+                        .map(|p| p + close.len())
+                        .unwrap_or(rest.len())
+                })
+            };
+            if let Some(len) = skip_to(b"<!--", b"-->")
+                .or_else(|| skip_to(b"<![CDATA[", b"]]>"))
+                .or_else(|| skip_to(b"<?", b"?>"))
+            {
+                out.extend_from_slice(&rest[..len]);
+                pos += len;
+                continue;
+            }
+            let reference = (rest[0] == b'&')
+                .then(|| rest.iter().take(256).position(|c| *c == b';'))
+                .flatten()
+                .and_then(|end| {
+                    entities
+                        .iter()
+                        .find(|(name, _)| name.as_slice() == &rest[1..end])
+                        .map(|(_, value)| (end + 1, value))
+                });
+            match reference {
+                Some((len, value)) => {
+                    // (an entity which - through others or not - refers to itself is an error)
+                    if depth >= 16 || out.len() + value.len() > limit {
+                        return Err(SvgdxError::ParseError(
+                            "Entity references expand too far".to_owned(),
+                        ));
+                    }
+                    expand(value, entities, depth + 1, limit, out)?;
+                    replaced = true;
+                    pos += len;
+                }
+                None => {
+                    out.push(rest[0]);
+                    pos += 1;
+                }
+            }
+        }
+        Ok(replaced)
+    }
+    if entities.is_empty() {
+        return Ok(None);
+    }
+    let mut out = Vec::with_capacity(data.len());
+    // (replacement can multiply the size of a document: bounded, as a variable's length is)
+    let limit = data.len() * 4 + (1 << 20);
+    let replaced = expand(data, entities, 0, limit, &mut out)?;
+    Ok(replaced.then_some(out))
+}
+
 impl InputList {
     pub fn new() -> Self {
-        Self { events: vec![] }
+        Self::default()
     }
 
     pub fn is_empty(&self) -> bool {
@@ -270,9 +393,40 @@ impl InputList {
         // they stand in (a comment, a quoted literal): the DOCTYPE is found here, and
         // what precedes and what follows it is read separately.
         let doctype = find_doctype(&data);
+        // References to the entities which the DOCTYPE declares stand for their
+        // replacement text, as they do for any XML processor.
+        let expanded = match doctype {
+            Some((start, end)) => {
+                expand_entities(&data[end..], &internal_entities(&data[start..end]))?
+            }
+            None => None,
+        };
+        match (doctype, expanded) {
+            (Some((_, end)), Some(expanded)) => Ok(Self {
+                events: Self::read_document(&data, doctype, &expanded)?,
+                as_written: Some(Self::read_document(&data, doctype, &data[end..])?),
+            }),
+            (Some((_, end)), None) => Ok(Self {
+                events: Self::read_document(&data, doctype, &data[end..])?,
+                as_written: None,
+            }),
+            (None, _) => Ok(Self {
+                events: Self::read_document(&data, None, &data)?,
+                as_written: None,
+            }),
+        }
+    }
+
+    /// The events of a document: what precedes its DOCTYPE (at `doctype` in `data`), the
+    /// DOCTYPE, and `rest`.
+    fn read_document(
+        data: &[u8],
+        doctype: Option<(usize, usize)>,
+        rest: &[u8],
+    ) -> Result<Vec<InputEvent>> {
         let segments: Vec<&[u8]> = match doctype {
-            Some((start, end)) => vec![&data[..start], &data[end..]],
-            None => vec![data.as_slice()],
+            Some((start, _)) => vec![&data[..start], rest],
+            None => vec![rest],
         };
 
         let mut events = Vec::new();
@@ -381,13 +535,14 @@ impl InputList {
             }
         }
 
-        Ok(Self { events })
+        Ok(events)
     }
 
     /// Convert to output events which are written exactly as they were read.
     pub fn into_raw_output(self) -> OutputList {
         let events: Vec<OutputEvent> = self
-            .events
+            .as_written
+            .unwrap_or(self.events)
             .into_iter()
             .map(|ev| OutputEvent::Other(ev.event))
             .collect();
@@ -397,6 +552,7 @@ impl InputList {
     pub fn slice(&self, start: usize, end: usize) -> Self {
         Self {
             events: self.events[start..end].to_vec(),
+            as_written: None,
         }
     }
 }
